@@ -621,7 +621,11 @@ def value_cases(func_node: ast.AST, target: str, at: ast.stmt, pm: Optional[Dict
         return cases, False
 
     par, lst, child = start
-    cases, _ = simulate(lst, None, at)
+    init = None
+    args = getattr(func_node, "args", None)
+    if args is not None and target in {a.arg for a in args.posonlyargs + args.args + args.kwonlyargs}:
+        init = [([], ast.Name(id=target, ctx=ast.Load()))]  # a parameter holds the caller's value until it is re-bound
+    cases, _ = simulate(lst, init, at)
     return cases
 
 
@@ -654,4 +658,28 @@ def single_assignments(func_node: ast.AST, names_only: bool = False, text: bool 
             out[k] = u(n.value) if text else n.value
     for k in many:
         out[k] = "<assigned more than once>" if text else None
+    return out
+
+
+def return_cases(func_node: ast.AST, norm, pm: Optional[Dict] = None) -> Optional[Dict[str, str]]:
+    """What the function returns, as {condition in normal form: value text}: every `return` with its path condition; a
+    returned local is replaced by its effective value (value_cases).  `if c: x = A` + `return x`, `return A if c else x`
+    and `if c: return A` + `return x` all give the same table.  None when some returned local cannot be resolved."""
+    from .algebra import bool_key, simplify
+    pm = pm or parents(func_node)
+    out: Dict[str, str] = {}
+    for r in walk_own(func_node):
+        if not isinstance(r, ast.Return):
+            continue
+        conds = path_condition(func_node, r, pm)
+        alts = [([], r.value)]
+        if isinstance(r.value, ast.Name):
+            cs = value_cases(func_node, r.value.id, r, pm)
+            if cs is not None:
+                alts = cs
+        for c2, v in alts:
+            g = simplify(norm.conj(list(conds) + list(c2)))
+            if g == ("const", False):
+                continue
+            out[bool_key(g)] = u(v) if v is not None else "None"
     return out
